@@ -32,7 +32,7 @@ func init() {
 			"(recording handler ending after 0/1/3/many reads, slow, small read buffer, closing the connection itself; shipped echo; non-matching route; proxy to a UDP echo upstream). " +
 			"oracle: each association's delivered byte stream is a concatenation of an in-order subsequence of its own client's datagrams; a datagram reaches at most one association; every reply " +
 			"is addressed to the owner; the process survives and answers a fresh probe client after each storm; after an association ended, one of 5 spaced probes of that client is served by a new association. " +
-			"non-trivial = >=2 datagrams delivered; distinct = hash(scenario parameters, event-kind order signature). real-socket scenario proxydown: the proxy handler's upstream port is closed when the first clients send (ICMP unreachable ends the upstream side), then an echo upstream starts there and 2-4 clients with fresh addresses must each get their own datagram back. scripted scenarios may give the server further listen addresses (second packet listener, stream listener) after the UDP one.",
+			"non-trivial = >=2 datagrams delivered; distinct = hash(scenario parameters, event-kind order signature). real-socket scenario proxydown: the proxy handler's upstream port is closed when the first clients send (ICMP unreachable ends the upstream side), then an echo upstream starts there and 2-4 clients with fresh addresses must each get their own datagram back. scripted scenarios may give the server further listen addresses (second packet listener, stream listener) after the UDP one. real-socket scenario twosock: a server with two UDP listen addresses and the echo handler; each client uses one socket for two conversations, one per server socket; every echo comes back from the socket it was sent to, with its own payload, in order.",
 		Assumptions: []string{
 			"datagram loss at association teardown is allowed (the statement does not promise reliability)",
 			"the 30 s idle expiry is exercised only in the thorough tier",
@@ -632,6 +632,9 @@ func runReal(c *fw.Ctx) {
 		kind := []string{"echo", "nomatch", "rec1", "echo", "proxydown", "rec1", "nomatch"}[i%7]
 		if kind == "proxydown" {
 			realProxyDown(c, i)
+			if i%2 == 0 {
+				realTwoSockets(c, i)
+			}
 			continue
 		}
 		routes := `[{"handle":[{"handler":"echo"}]}]`
@@ -847,6 +850,84 @@ func realProxyDown(c *fw.Ctx, i int) {
 	}
 	c.Obs("real_proxydown_late_clients_served", int64(served))
 	c.Case(fw.Hash("real", "proxydown", early, late, i), true, func() any { return w })
+}
+
+// realTwoSockets: one server with two real UDP listen addresses and the echo handler; every client uses ONE socket to talk
+// to both of the server's sockets at the same time. The two conversations of a client are different virtual
+// connections: each datagram comes back from the server socket it was sent to, with its own payload, in order.
+func realTwoSockets(c *fw.Ctx, i int) {
+	r := fw.Rand(c.Seed, "c09twosock", i)
+	n1, n2 := vnet.UniqueName("c09real"), vnet.UniqueName("c09real")
+	cfg := fmt.Sprintf(`{"servers":{"s":{"listen":["verifrealudp/%s:1","verifrealudp/%s:1"],"routes":[{"handle":[{"handler":"echo"}]}],"matching_timeout":"1s"}}}`, n1, n2)
+	app, err := drive.StartAppConfig(cfg, "")
+	if err != nil {
+		c.Violation("C09 config rejected", err.Error(), cfg)
+		return
+	}
+	defer app.Stop()
+	a1, _ := vnet.RealUDPAddr(n1)
+	a2, _ := vnet.RealUDPAddr(n2)
+	u1, e1 := net.ResolveUDPAddr("udp", a1)
+	u2, e2 := net.ResolveUDPAddr("udp", a2)
+	if e1 != nil || e2 != nil {
+		c.Inconclusive("cannot resolve the listeners' addresses")
+		return
+	}
+	c.Journal("real twosock %d", i)
+	clients := 1 + r.Intn(3)
+	rounds := 20 + r.Intn(40)
+	bad := ""
+	echoed := 0
+	for k := 0; k < clients && bad == ""; k++ {
+		pc, err := net.ListenUDP("udp", &net.UDPAddr{IP: net.IPv4(127, 0, 0, 1)})
+		if err != nil {
+			continue
+		}
+		buf := make([]byte, 4096)
+		for sq := 1; sq <= rounds && bad == ""; sq++ {
+			// client id 2k goes to the first server socket, 2k+1 to the second
+			_, _ = pc.WriteToUDP(makeDatagram(2*k, sq, 40), u1)
+			_, _ = pc.WriteToUDP(makeDatagram(2*k+1, sq, 40), u2)
+			got := 0
+			for got < 2 {
+				_ = pc.SetReadDeadline(time.Now().Add(10 * time.Second))
+				n, from, err := pc.ReadFromUDP(buf)
+				if err != nil {
+					bad = fmt.Sprintf("client %d (one socket, two conversations): %d of the 2 echoes of round %d did not arrive within 10 s", k, 2-got, sq)
+					break
+				}
+				ds, b := parseStream(buf[:n])
+				if b != "" || len(ds) != 1 {
+					bad = fmt.Sprintf("client %d received a datagram that is not one of its own: %s", k, b)
+					break
+				}
+				wantFrom := u1
+				if ds[0].client == 2*k+1 {
+					wantFrom = u2
+				} else if ds[0].client != 2*k {
+					bad = fmt.Sprintf("client %d received the echo of conversation %d", k, ds[0].client)
+					break
+				}
+				if from.Port != wantFrom.Port {
+					bad = fmt.Sprintf("the echo of a datagram sent to server socket %v came back from server socket %v (the client's two conversations were mixed)", wantFrom, from)
+					break
+				}
+				if ds[0].seq != sq {
+					bad = fmt.Sprintf("client %d conversation %d: echo seq %d in round %d", k, ds[0].client, ds[0].seq, sq)
+					break
+				}
+				got++
+				echoed++
+			}
+		}
+		pc.Close()
+	}
+	w := map[string]any{"storm": i, "kind": "twosock", "clients": clients, "rounds": rounds}
+	if bad != "" {
+		c.Violation("C09 real-socket cross-talk [one client socket, two server sockets]", bad, w)
+	}
+	c.Obs("real_twosock_echoes", int64(echoed))
+	c.Case(fw.Hash("real", "twosock", clients, rounds, i), true, func() any { return w })
 }
 
 // runIdle lets many associations expire by the 30 s idle timeout in parallel and checks that afterwards each
